@@ -18,7 +18,7 @@ def jobs(tier):
     J = []
     cap = 600 if quick else 40000
     A = lambda mk, **kw: J.append(Job("A", mk, max_states=kw.pop("max_states", cap), **kw))
-    B = lambda mk, **kw: J.append(Job("B", mk, cycles=kw.pop("cycles", 4000 if quick else 40000),
+    B = lambda mk, **kw: J.append(Job("B", mk, cycles=kw.pop("cycles", 3000 if quick else 30000),
                                       runs=kw.pop("runs", 1 if quick else 3), **kw))
 
     # ---- WaitTimer, bus error counter
@@ -45,29 +45,34 @@ def jobs(tier):
     # The composed AXI netlists evaluate at < 1000 cycles/s and the lock counters (0..255) multiply the state
     # space, so the product is explored breadth-first up to a transition budget (all states within a few
     # outstanding requests of reset: every timer value x FSM state x grant x select is reached long before).
-    budget = 12000 if quick else 400000
+    budget = 7000 if quick else 100000
 
     def AX(full, n, k, t, d, m_parts=None, s_parts=None, scale=1.0):
         alpha = L.ax_alphabet(n, k, 4, d, full, m_parts=m_parts, s_parts=s_parts)
         A(lambda: L.AxSharedInst(full, n, k, t, alphabet=alpha, tag="/" + d),
-          max_states=max(40, int(budget * scale) // len(alpha)))
+          max_states=max(30, int(budget * scale) // len(alpha)))
 
     mw2 = [(0, 0, 0, 0), (0, 0, 0, 1), (1, 0, 1, 0), (1, 0, 0, 1), (0, 0, 1, 1), (1, 16, 1, 1)]   # 2 masters, 1 slave
     mr2 = [(0, 0, 0), (0, 0, 1), (1, 0, 0), (1, 0, 1), (1, 16, 1)]
     sw2 = [(0, 0, 0, 0), (1, 1, 0, 0), (0, 0, 1, 1), (1, 0, 0, 0), (0, 1, 1, 3)]                    # 2 slaves
     sr2 = [(0, 0, 0, 0, 0), (1, 0, 0, 0, 0), (0, 1, 1, 0x5a, 0), (1, 1, 2, 0x3c, 0)]
     for t in (1, 2, 3):
-        AX(False, 1, 1, t, "w")
+        AX(False, 1, 1, t, "w", scale=1.0 if quick else 3.5)      # thorough: the complete product (lock 0..255)
         AX(False, 1, 1, t, "r")
-    for t in (1, 2):
-        AX(True, 1, 1, t, "r")
+    AX(True, 1, 1, 2, "r")
     AX(True, 1, 1, 2, "w")
-    AX(False, 2, 1, 2, "w", m_parts=mw2)
+    if not quick:
+        AX(True, 1, 1, 1, "r")
+        AX(True, 1, 1, 3, "r")
+    mw1 = [(0, 0, 0, 0), (0, 0, 0, 1), (1, 0, 1, 0), (1, 0, 1, 1), (1, 16, 0, 1), (0, 16, 1, 1), (1, 32, 1, 1),
+           (0, 32, 0, 1)]                                                                         # 1 master, 2 slaves
+    AX(False, 2, 1, 2, "w", m_parts=mw2, s_parts=sw2 if quick else None)
     AX(False, 2, 1, 2, "r", m_parts=mr2)
-    AX(False, 1, 2, 2, "w", s_parts=sw2)
+    AX(False, 1, 2, 2, "w", m_parts=mw1 if quick else None, s_parts=sw2[:4])
     AX(False, 1, 2, 2, "r", s_parts=sr2)
-    AX(True, 2, 1, 1, "w", m_parts=mw2)
-    AX(True, 2, 1, 1, "r", m_parts=mr2 + [(1, 0, 0)])
+    AX(True, 2, 1, 1, "w", m_parts=mw2, s_parts=sw2 if quick else None)
+    AX(True, 2, 1, 1, "r", m_parts=mr2, s_parts=[(0, 0, 0, 0, 0), (1, 0, 0, 0, 0), (0, 1, 1, 0x5a, 0),
+                                                 (0, 1, 1, 0x5a, 1), (1, 1, 2, 0x3c, 1)])
     AX(False, 1, 1, None, "w", scale=0.5)
     if not quick:
         AX(False, 2, 2, 2, "w", m_parts=[(0, 0, 0, 1), (1, 0, 1, 0), (1, 16, 1, 1), (0, 16, 1, 1), (1, 32, 1, 1)],
@@ -94,14 +99,61 @@ def jobs(tier):
     return J
 
 
+def soc_cases(ctx):
+    """End to end on real SoCs (SoCMini + test-bench master, shared interconnect, `bus_timeout` = t): unmapped
+    accesses terminate after exactly t (Wishbone) / t + 2 (AXI) cycles with the error indication, RAM accesses in
+    between are undisturbed, and `ctrl.bus_errors` (wired by SoC.finalize) counts exactly the timed-out accesses."""
+    import random
+    out = []
+    quick = ctx.tier == "quick"
+    n = 0
+    touts = 0
+    for std in ("wishbone", "axi-lite", "axi"):
+        for t in ((16,) if quick else (16, 100, 128)):
+            for rep in range(1 if quick else 3):
+                seed = ctx.seed * 1009 + 17 * t + rep
+                problems, k = L.soc_scenario(std, "shared", t, random.Random(seed), nops=12 if quick else 30)
+                n += 1
+                touts += k
+                ctx.cov.count("soc-timeouts/" + std, k)
+                if problems:
+                    out.append({"kind": "soc-scenario", "instance": "SoCMini(%s,shared,bus_timeout=%d)" % (std, t),
+                                "std": std, "t": t, "seed": seed, "nops": 12 if quick else 30, "problems": problems[:5]})
+    ctx.cov.add_cases("SoCMini + tb master: unmapped/RAM access sequences, exact termination latency, error indication, "
+                      "bus_errors CSR (oracle only)", n, touts, exhaustive=False)
+    return out
+
+
+def env_statistics(ctx):
+    """What the mode-B environments exercise (measured on the real code, monitors armed)."""
+    import random
+    out = []
+    cyc = 1500 if ctx.tier == "quick" else 15000
+    for mk in (lambda: L.WbSharedInst(2, 2, 16, dw=32, sh=4), lambda: L.AxSharedInst(False, 2, 2, 16, dw=32),
+               lambda: L.AxSharedInst(True, 2, 2, 16, dw=32)):
+        inst = mk()
+        stats, msg = L.measure_env(inst, random.Random(ctx.seed + 5), cyc)
+        for k, v in stats.items():
+            ctx.cov.count("env/%s/%s" % (inst.name.split("(")[0], k), v)
+        if msg:
+            out.append({"kind": "monitor", "instance": inst.name, "monitor": msg})
+    return out
+
+
 def correspond(ctx):
     ctx.jobs = jobs(ctx.tier)
     dis, bad = run_jobs(ctx, ctx.jobs)
-    return dis
+    return dis + soc_cases(ctx) + env_statistics(ctx)
 
 
 def search(ctx, disagreements, proof_info):
-    return generic_search(ctx, disagreements, getattr(ctx, "jobs", None) or jobs(ctx.tier), FMT)
+    for d in disagreements:
+        if isinstance(d, dict) and d.get("kind") == "soc-scenario":
+            return {"instance": d["instance"], "scenario": {k: d[k] for k in ("std", "t", "seed", "nops")},
+                    "monitor": "; ".join(d["problems"]),
+                    "letter_format": "replay: c11lib.soc_scenario(std, 'shared', t, random.Random(seed), nops)"}
+    dis = [d for d in disagreements if not isinstance(d, dict)]
+    return generic_search(ctx, dis, getattr(ctx, "jobs", None) or jobs(ctx.tier), FMT)
 
 
 def probes(ctx):
@@ -123,4 +175,16 @@ def probes(ctx):
 
 
 def replay(ctx, payload):
+    fi = payload.get("failing_input") or {}
+    if fi.get("scenario"):
+        import random
+        sc = fi["scenario"]
+        problems, _ = L.soc_scenario(sc["std"], "shared", sc["t"], random.Random(sc["seed"]), nops=sc["nops"])
+        for p in problems:
+            print(p)
+        if problems:
+            print("VIOLATION property=%s replay=(replayed)" % ctx.prop)
+            return 1
+        print("scenario no longer violates the property on the current tree")
+        return 0
     return generic_replay(ctx, payload, jobs("thorough"))
